@@ -497,7 +497,7 @@ func concRun(repo string, seed int64, goroutines, rounds int, out string) error 
 	}
 	// documents in older spellings that the regime rewrites while calculating (PT: exemption reasons once written as
 	// rate keys and migrated through a table), with and without a foreign country on the tax combination
-	legacy := map[int]bool{}
+	legacy, raceOnly := map[int]bool{}, map[int]bool{}
 	for i := 0; i < nbase; i++ {
 		if !strings.Contains(names[i], "/pt/") {
 			continue
@@ -533,6 +533,27 @@ func concRun(repo string, seed int64, goroutines, rounds int, out string) error 
 		}
 		json.Unmarshal(orig, &lines)
 		doc["lines"] = lines
+	}
+	// documents without an issue date: the calculation takes today's date in the regime's time zone
+	for i := 0; i < nbase; i++ {
+		if i%4 != int(seed)%4 {
+			continue
+		}
+		var m map[string]any
+		if json.Unmarshal(docs[i], &m) != nil {
+			continue
+		}
+		doc, ok := m["doc"].(map[string]any)
+		if !ok || doc["issue_date"] == nil {
+			continue
+		}
+		delete(doc, "issue_date")
+		delete(doc, "value_date")
+		b, _ := json.Marshal(m)
+		// (only the race detector looks at these: their results depend on the day, which may change during a run)
+		legacy[len(docs)], raceOnly[len(docs)] = true, true
+		docs = append(docs, b)
+		names = append(names, names[i]+"+no-issue-date")
 	}
 	before := registryFingerprint()
 	w.Emit(concEvent{K: "registry", Op: "before", Same: true, Got: before})
@@ -600,6 +621,9 @@ func concRun(repo string, seed int64, goroutines, rounds int, out string) error 
 		seq[i] = concOps(d)
 	}
 	for _, o := range all {
+		if raceOnly[o.i] {
+			continue
+		}
 		for op, want := range seq[o.i] {
 			w.Emit(concEvent{K: "result", G: o.g, Op: op, Doc: names[o.i], Same: o.got[op] == want, Seq: want, Got: o.got[op]})
 		}
@@ -635,6 +659,9 @@ func concRun(repo string, seed int64, goroutines, rounds int, out string) error 
 	edited := registryFingerprint()
 	w.Emit(concEvent{K: "registry", Op: "after-editing-documents", Same: edited == before, Seq: before, Got: edited})
 	for i, d := range docs {
+		if raceOnly[i] {
+			continue
+		}
 		got := concOps(d)
 		for op, want := range seq[i] {
 			if got[op] != want {
